@@ -279,6 +279,20 @@ pub fn gen_model(r: &mut Rng, cfg: &GenCfg) -> Model {
             };
             let tilt = if cfg.odd_tilts && r.chance(1, 8) { *r.pick(&odd) } else { tilt };
             let az = if r.chance(1, 4) { az + r.grid(-180.0, 180.0, 7.5) } else { az };
+            // the limits of the orientation sectors, from either side and given as negative angles
+            let az = if cfg.odd_tilts && r.chance(1, 6) {
+                const LIMITS: [f32; 8] = [18.0, 69.0, 120.0, 157.5, 202.5, 240.0, 291.0, 342.0];
+                let l = *r.pick(&LIMITS);
+                match r.below(5) {
+                    0 => l,
+                    1 => f32::from_bits(l.to_bits() - 1),
+                    2 => f32::from_bits(l.to_bits() + 1),
+                    3 => l - 360.0,
+                    _ => l + 360.0,
+                }
+            } else {
+                az
+            };
             let wid = uid(r);
             m.walls.push(Wall {
                 id: wid,
@@ -437,7 +451,7 @@ pub fn gen_model(r: &mut Rng, cfg: &GenCfg) -> Model {
         if r.chance(1, 6) {
             walls.insert(uid(r), WallPropsOverrides { u_value: Some(1.0) });
         }
-        m.overrides = PropsOverrides { walls, windows };
+        m.overrides = PropsOverrides { walls: walls.into_iter().collect(), windows: windows.into_iter().collect() };
     }
     m
 }
